@@ -204,7 +204,11 @@ func run(c *core.Ctx) {
 			pointMutantsOnly(c, coll, order+1, ct, msg, enc)
 		}
 	})
+	concurrentPhase(c, coll)
 	coll.flush(c)
+	if c.Counter("concurrent_roundtrips_ok") == 0 {
+		c.Inconclusive("the concurrent phase never completed a round trip")
+	}
 	if c.Counter("roundtrip_decoded") == 0 || c.Counter("mutant_rejected") == 0 {
 		c.Inconclusive("the run never saw both an accepted round trip and a rejected mutant")
 	}
